@@ -574,6 +574,34 @@ def loc_of(f, bb):
     return t.get("loc") or f.span
 
 
+def r01q(ctx, rep, rule="R01q"):
+    from . import tables
+    facts = ctx["facts"]
+    rep.rule(rule, "an outermost begin is spliced: `begin` is a prelude macro that wraps its forms in a procedure, which would turn "
+             "(begin (define x 1)) at top level into an internal definition. Vm::compile_runnable therefore recognises the "
+             "keyword itself (a string test for `begin`) and compiles the forms one by one — a loop around Vm::compile — into "
+             "the top-level procedure, where a definition defines a global (R7RS 5.1).")
+    f = need(rep, rule, facts, COMPILE + "compile_runnable")
+    if f is None:
+        return
+    kws = [kw for kw, bb, t in tables.str_eq_consts(f)]
+    for g in facts.closures_of(f):
+        kws += [kw for kw, bb, t in tables.str_eq_consts(g)]
+    is_kw = any(callee(t) == "marwood::cell::Cell::is_symbol_str" and any((op_const(a) or {}).get("str") == "begin" for a in t["args"])
+                for bb, t in f.calls())
+    body = set()
+    for src, h in f.back_edges():
+        body |= (f.reach_from(h) & f.reach_back(src)) | {h, src}
+    looped = [bb for bb, t in f.calls() if callee(t) == COMPILE + "compile" and bb in body]
+    key = rule + "|compile_runnable|begin-spliced"
+    if ("begin" in kws or is_kw) and looped:
+        rep.ok(rule, key, "compile_runnable tests for `begin` and compiles its forms in a loop into the top-level procedure", [f.span])
+    else:
+        rep.fail(rule, key, "compile_runnable hands an outermost (begin ...) to the macro expander like any other form: its "
+                 "definitions become internal definitions of the procedure `begin` expands to, so (begin (define zz 5)) defines "
+                 "nothing at top level", [f.span])
+
+
 def run(ctx, rep):
     r01a(ctx, rep)
     rep.rule("R01c", "CALL/TCALL twin agreement: the builtin, continuation and non-procedure sub-arms of the CallAcc and "
@@ -587,10 +615,12 @@ def run(ctx, rep):
     prelude.r01f(ctx, rep)
     prelude.r01g(ctx, rep)
     prelude.r01h(ctx, rep)
+    prelude.r01p(ctx, rep)
     r01i(ctx, rep)
     r01j(ctx, rep)
     r01m(ctx, rep)
     r01n(ctx, rep)
+    r01q(ctx, rep)
     from . import C02
     borrow(ctx, rep, "R01k", "lexical addressing is part of evaluation: C02's rules on the binding map order (R02c), the scan working on "
            "copies of the bound set (R02d), ENTER installing a per-activation environment (R02e) and load/store symmetry (R02b), "
